@@ -13,6 +13,7 @@
   correspondence run) and hold for every program, every state and every fuel.
 -/
 import YashModel.Exec.Escape
+import YashModel.Exec.Refine
 namespace YashModel.Exec
 
 /-! ### ★ stack_balanced: every push has its pop on every path -/
@@ -252,6 +253,31 @@ theorem search_order (s : St) (body : Cmd) :
   constructor
   · rfl
   · simp [classify, defineFn, lookupFn]
+
+/-! ### ☆ exec_refines_spec: the frame-stack implementation refines the context semantics -/
+
+/-- Every command, in every state and with every fuel, behaves under the implementation's frame stack
+    exactly as the Spec prescribes for the context that stack stands for (`loops` visible loops,
+    errexit-exempt iff a `Condition` frame is present): same result, same state up to the stack. -/
+theorem exec_refines_spec (fuel : Nat) (s : St) (c : Cmd) :
+    SameButStack (execCmd fuel s c).1 (specCmd fuel (ctxOf s.stack) s c).1 ∧
+    (execCmd fuel s c).2 = (specCmd fuel (ctxOf s.stack) s c).2 :=
+  (ref fuel).cmd s s c (sbs_refl s)
+
+theorem exec_refines_spec_list (fuel : Nat) (s : St) (l : List Item) :
+    SameButStack (execList fuel s l).1 (specList fuel (ctxOf s.stack) s l).1 ∧
+    (execList fuel s l).2 = (specList fuel (ctxOf s.stack) s l).2 :=
+  (ref fuel).list s s l (sbs_refl s)
+
+/-- Whole shell runs (read-eval loop, shell errors, EXIT trap): the commands traced, `$?` at each of
+    them, the final exit status and the way the run ended are those of the Spec. -/
+theorem shell_refines_spec (fuel : Nat) (script : List Line) :
+    (runShell fuel {} script).1.trace = (specShell fuel {} script).1.trace ∧
+    (runShell fuel {} script).1.status = (specShell fuel {} script).1.status ∧
+    (runShell fuel {} script).2 = (specShell fuel {} script).2 := by
+  obtain ⟨⟨st, h⟩, hr⟩ := ref_shell fuel {} script rfl
+  rw [h]
+  exact ⟨rfl, rfl, hr⟩
 
 /-! ### non-vacuity: the hypotheses above are met by concrete programs -/
 
